@@ -49,6 +49,11 @@ type vfCFRaceWorld struct {
 	scratch string
 	mu      sync.Mutex
 	tmpl    map[string]string
+	// stw: a worker holds it shared while it (or a goroutine it released) is
+	// active and gives it up at every step boundary; a goroutine dump is taken
+	// holding it exclusively, i.e. while no other worker's goroutines are
+	// inside system calls (runtime.Stack(all) of go1.25 can crash otherwise).
+	stw sync.RWMutex
 }
 
 func vfCFNewRaceWorld(n int, scratch string) (*vfCFRaceWorld, error) {
@@ -94,6 +99,7 @@ func (w *vfCFRaceWorld) template(bt, ft int) (string, error) {
 		return d, nil
 	}
 	dir := filepath.Join(w.scratch, key)
+	os.RemoveAll(dir) // left by an earlier, aborted run of the driver (other chain)
 	if err := os.MkdirAll(dir, 0o755); err != nil {
 		return "", err
 	}
@@ -291,6 +297,8 @@ func (e *vfCFRaceEnv) parkedAs(gid string) string {
 
 func (e *vfCFRaceEnv) parkedOnce(gid string) string {
 	var dump []byte
+	e.w.stw.RUnlock()
+	e.w.stw.Lock()
 	for {
 		n := runtime.Stack(e.buf, true)
 		if n < len(e.buf) {
@@ -299,6 +307,8 @@ func (e *vfCFRaceEnv) parkedOnce(gid string) string {
 		}
 		e.buf = make([]byte, 2*len(e.buf))
 	}
+	e.w.stw.Unlock()
+	e.w.stw.RLock()
 	tag := []byte("\ngoroutine " + gid + " [")
 	i := bytes.Index(dump, tag)
 	if i < 0 {
@@ -522,6 +532,9 @@ func (e *vfCFRaceEnv) recv() (int, string, bool, error) {
 // next performs the command op (StepR, StepW, Recv) and returns the act to
 // record.
 func (e *vfCFRaceEnv) next(op string) (vfCFAct, bool, error) {
+	// step boundary: everything of this path is parked, let a dump happen
+	e.w.stw.RUnlock()
+	e.w.stw.RLock()
 	a := vfCFAct{Op: op, Rs: []int{}}
 	if op == "Recv" {
 		code, res, ok, err := e.recv()
@@ -551,6 +564,8 @@ func (e *vfCFRaceEnv) next(op string) (vfCFAct, bool, error) {
 
 func vfCFRaceRun(w *vfCFRaceWorld, p vfCFPathIn) (out vfCFPathOut) {
 	out.ID = p.ID
+	w.stw.RLock()
+	defer w.stw.RUnlock()
 	defer func() {
 		if r := recover(); r != nil {
 			buf := make([]byte, 8192)
